@@ -36,6 +36,10 @@ CLAIMED = {
              'and z3 decides on each path: sort = ordered permutation with sorted[i] is x[idx[i]]; median / MedianFilter / medfilt = counting characterisation of the window median (symbolic initial history); '
              'Spearman / Kendall = O(n^2) definition for every pair of strict orderings (n <= 4 quick, 5 thorough); Pearson = polynomial identity of numerator and radicand.',
              note='n <= 5 (6) for sort/median, orders 3-5(6) for the filters; values compared as reals (no NaN); Pearson range [-1,1] not decided.'),
+ 'C08': dict(design='4/C08', text='FIRDecimator / FIRInterpolator / FIRRateConverter / FIRResampler for every reduced L/M with L,M <= 4 (quick) / 8 (+ audio ratios, thorough), random symmetric taps and the default design: '
+             'all input samples symbolic, z3 (QF_LRA) certifies the code as a fixed matrix which must equal - at one phase shared by one-call, two-call and three-call framings - the exact matrix of insert L-1 zeros / '
+             'filter with h*L/sum(h) / keep every M-th; output count len*L/M; frames not a multiple of M end in a throw; resample(): length p\'*ceil(len/q\'), p = q returns the same terms, impulse-response centroid within one output sample of i*q/p.',
+             note='REAL arithmetic; phase searched in [-|h|-LM, |h|+LM]; alignment judged by the energy centroid of impulse responses away from the edges; pass-band accuracy of the default design not decided.'),
 }
 ALL = [json.loads(l)['id'] for l in open(os.path.join(V, 'properties.jsonl'))]
 NA_REASON = {}
